@@ -139,6 +139,9 @@ def r3_roles(ctx, chk, rule="C05.3"):
 
 
 def run(ctx, chk):
+    # observed through the batch driver: run_games()[name]['final_strategies', 'reachability_strategies'] must be this game's, this mode's value
+    from . import C12 as _C12
+    _C12.observe(ctx, chk, "C05.obs", ['final_strategies', 'reachability_strategies'])
     # (a) pipeline order and restriction argument
     C02.r1_pipeline(ctx, chk, "C05.pre:C02.1")
     C02.r4_restriction_argument(ctx, chk, "C05.pre:C02.4")
